@@ -49,7 +49,7 @@ class C05(Check):
         note="modelled, not verified: the hydraulic solve (conditions are evaluated on whatever the real solver produced), IEEE rounding; "
         "rules are out of scope (simple controls only; rule interleaving is C04's Sched model); which of CV / pump shut-off / tank limit "
         "holds a commanded-open link closed is accepted from the link's type and the adjacent tank levels, not re-derived",
-        technique="Lean 4 proof over hand-written model + differential run (in-process wrapping) + Lean-evaluated oracles on real results",
+        technique="Lean 4 proof over hand-written model + ast translator (Gen/TankShape.lean: update_tank_heads, _interp_extrapolate, Tank.get_volume, backtrack block of TankLevelCondition.evaluate, _run_postsolve_controls, _internal_status writers; Lemmas/TankShape.lean: the interpreted skeletons ARE the model) + differential run (in-process wrapping) + Lean-evaluated oracles on real results",
     )
     rule = (
         "obligations: theorems of Props/C05.lean. correspondence cases: observed condition evaluations (deduplicated, capped), every "
